@@ -316,6 +316,13 @@ Section Proofs.
     destruct (run_good sched _ _ s I (pool_of_calls_good calls s I)) as (_ & (_ & _ & Hx)). exact Hx.
   Qed.
 
+  Lemma reach_inv : forall (calls : list (string * arg)) sched,
+    inv (snd (run sched (map (fun qa => query_prog (fst qa) t (snd qa)) calls) fresh_state)).
+  Proof.
+    intros calls sched.
+    exact (proj2 (run_good sched _ _ fresh_state inv_fresh (pool_of_calls_good calls fresh_state inv_fresh))).
+  Qed.
+
   (* every pool can be run to completion (so the interleaving theorem is not vacuous) *)
   Lemma finish_one : forall p before after s,
     exists n s', run (repeat (List.length before) n) (before ++ p :: after) s
@@ -401,7 +408,7 @@ Section Statements.
   Proof.
     intros HF t s0 (calls0 & sched0 & Hs0) calls sched i r H.
     assert (I0 : inv tle val time_of period_of t s0).
-    { subst s0. eapply run_good; [exact HF | apply inv_fresh | apply pool_of_calls_good; [exact HF | apply inv_fresh]]. }
+    { subst s0. eapply reach_inv; exact HF. }
     destruct (interleaving_from tle arg val res time_of period_of time_dep period_dep orbit_result pure_result
                 driver raise_attr out_of_fuel fuel F HF t calls s0 sched i r I0 H) as (q & a & N & E).
     exists q, a. split; [exact N|]. rewrite E. symmetry. apply fresh_is_spec; exact HF.
